@@ -98,6 +98,47 @@ func c19(c *core.Ctx) {
 			}
 		}
 	})
+	// the package's exported message-type VARIABLES (BindingRequest, BindingSuccess, BindingError) hold what an
+	// application puts there; the encoding is a function of the MessageType value alone
+	c.SectionSerial("exported-type-variables-reassigned", 3, func(i int64, _ *gen.Rand) {
+		saved := [3]stun.MessageType{stun.BindingRequest, stun.BindingSuccess, stun.BindingError}
+		defer func() { stun.BindingRequest, stun.BindingSuccess, stun.BindingError = saved[0], saved[1], saved[2] }()
+		switch i {
+		case 0:
+			stun.BindingRequest = stun.NewType(stun.MethodBinding, stun.ClassIndication)
+			stun.BindingSuccess = stun.NewType(stun.MethodAllocate, stun.ClassSuccessResponse)
+			stun.BindingError = stun.NewType(stun.MethodRefresh, stun.ClassErrorResponse)
+		case 1:
+			stun.BindingRequest, stun.BindingSuccess, stun.BindingError = saved[1], saved[2], saved[0]
+		default:
+			stun.BindingRequest = stun.MessageType{Method: 0xfff, Class: 3}
+			stun.BindingSuccess = stun.MessageType{}
+			stun.BindingError = stun.NewType(0x800, stun.ClassRequest)
+		}
+		for method := 0; method < 4096; method++ {
+			for cl := 0; cl < 4; cl++ {
+				t := stun.NewType(stun.Method(method), stun.MessageClass(cl))
+				want := ref.JoinType(uint16(method), uint8(cl))
+				c.Eval(1)
+				got := t.Value()
+				var back stun.MessageType
+				back.ReadValue(got)
+				if got != want || back != t {
+					c.Violate("value-mismatch", "Value:after-reassigning-exported-variables", map[string]interface{}{"method": method, "class": cl, "got": got, "want": want, "variant": i})
+
+					return
+				}
+				m := new(stun.Message)
+				m.SetType(t)
+				if w := uint16(m.Raw[0])<<8 | uint16(m.Raw[1]); w != want {
+					c.Violate("value-mismatch", "SetType:after-reassigning-exported-variables", map[string]interface{}{"method": method, "class": cl, "wire": w, "want": want, "variant": i})
+
+					return
+				}
+			}
+		}
+		c.Distinct(uint64(i) | 9<<40)
+	})
 	// the same tables from several goroutines at once (each with its own MessageType values): the mapping is a pure function
 	c.SectionSerial("concurrent-sweep", 4, func(i int64, _ *gen.Rand) {
 		const g = 8
